@@ -9,7 +9,7 @@ def run_bounded(run, clauses, label, function, per_job=None, njobs=14):
     ev = sum(r["evaluations"] for r in res if r and "_error" not in r)
     fails = [f for r in res if r and "_error" not in r for f in r["failures"]]
     if errs:
-        run.note(f"bounded stand-in worker errors: {errs[:2]}")
+        run.note(f"bounded stand-in: {len(errs)} job(s) did not finish (time limit or worker error) and are not counted: {errs[:2]}")
     run.bounded_result(label, function,
                        f"{ev} generated scenarios (6 phase/fabric x regimes 4/6 x 6 flow families x 4 textures x 3 volume laws x partitions 1/3/10 x parameter corners, n_grains in 2/16/40), real LSODA, compiled solver",
                        ev, fails, ev)
